@@ -334,6 +334,157 @@ def table_accounting(r, F):
                 if not core.contains_call(e, 'hpack::header::Header::len'):
                     ok = False
             r.check(ok, 'table|evict|' + fname.split('::')[-1], f.file, '%s: every pop_back is paired with size -= entry.len()' % fname.split('::')[-1])
+    # boundaries (RFC 7541 §4.4): an entry is stored iff size + len <= max_size after eviction (an entry exactly as large
+    # as the table is kept); eviction runs exactly while the (prospective) size is > max_size
+    for fname, lhs_n, action, want in ((T + '::insert', 2, 'store', frozenset(['lt', 'eq'])), (T + '::reserve', 2, 'evict', frozenset(['gt'])), (T + '::consolidate', 1, 'evict', frozenset(['gt']))):
+        f = F.fn(fname)
+        if not f:
+            continue
+        found = []
+        for bi, sw in core.all_switches(F, f).items():
+            for flip in (False, True):
+                cr = core.cmp_regions(sw, flip)
+                if cr is None:
+                    continue
+                a, b, regs = cr
+                ls = core.additive_leaves(a)
+                if ls is None or not (strip(b)[0] == 'field' and core.last_field(strip(b)) == (T, 'max_size')):
+                    continue
+                if len(ls) != lhs_n or not any(strip(l)[0] == 'field' and core.last_field(strip(l)) == (T, 'size') for l in ls):
+                    continue
+                found.append((bi, regs))
+        r.check(len(found) == 1, 'table|boundary|%s|compares' % fname.split('::')[-1], f.file, '%s compares %s with max_size (%d site(s))' % (fname.split('::')[-1], 'size + len' if lhs_n == 2 else 'size', len(found)))
+        for bi, regs in found:
+            if action == 'store':
+                sites = [b2 for b2, t in f.calls(lambda t: t['fn'].endswith('VecDeque::push_front'))]
+            else:
+                sites = [b2 for b2, t in f.calls(lambda t: t['fn'].endswith('VecDeque::pop_back'))]
+            edges = [(bi, s2) for s2, o in regs.items() if o == want]
+            ok = bool(edges) and bool(sites) and all(f.dominated_by_edges(x, edges) for x in sites) and all(o in (want, core._ORD_ALL - want) for o in regs.values())
+            r.check(ok, 'table|boundary|%s' % fname.split('::')[-1], f.loc(bi),
+                    '%s: %s exactly when %s {%s} max_size (edges: %s)' % (fname.split('::')[-1], action, 'size + len' if lhs_n == 2 else 'size', ','.join(sorted(want)), sorted(','.join(sorted(o)) for o in regs.values())))
     sm = r.fn(T + '::set_max_size')
     if sm:
         r.check(bool(sm.calls_to(T + '::consolidate')), 'table|set_max_size', sm.file, 'set_max_size evicts down to the new limit (consolidate)')
+
+
+def size_update_schedule(r, F):
+    """C10.R6: Encoder::update_max_size as a relation over orderings.
+
+    The function only compares its integers (new value, pending values, the table's current maximum), so its
+    behaviour is determined by their weak ordering.  Every weak ordering of up to four values is enumerated with
+    representative integers and the function is evaluated by abstract interpretation of its MIR (nothing is run).
+    Obligation (RFC 7541 §4.2): after the call the last size to be signalled equals the new value (or nothing is
+    pending and the table already has that size), and if the smallest size requested since the last header block
+    is below the table's current size, a size no larger than it is signalled first."""
+    from . import absint
+    from .absint import E, I, TOP
+    OPT = 'std::option::Option'
+    SU = ENC + 'SizeUpdate'
+    u = r.fn(ENC + 'Encoder::update_max_size')
+    if not u:
+        return
+    n = 0
+    bad = 0
+    vals = range(4)
+    for T in vals:
+        for val in vals:
+            pres = [('None', None)] + [('One', (a,)) for a in vals] + [('Two', (a, b)) for a in vals for b in vals if a <= b]
+            for shape, ps in pres:
+                if shape == 'None':
+                    su = E(OPT, 'None')
+                    m_pre = None
+                else:
+                    su = E(OPT, 'Some', (E(SU, shape, tuple(I(x) for x in ps)),))
+                    m_pre = ps[0]
+                enc = ('s', ENC + 'Encoder', tuple(sorted({'table': TOP, 'max_allowed_size': I(9), 'size_update': su, 'scratch': TOP}.items())))
+                models = {
+                    'hpack::table::Table::max_size': lambda a, T=T: I(T),
+                    'std::cmp::Ord::min': lambda a: I(min(a[0][1], a[1][1])) if all(x != TOP and x[0] == 'i' for x in a[:2]) else TOP,
+                }
+                it = absint.Interp(F, models=models)
+                try:
+                    out = it.run(u, {1: ('ref', enc), 2: I(val)})
+                except (absint.Unsupported, core.Cap) as e:
+                    r.bad('schedule|interp', u.file, 'cannot evaluate update_max_size: %s' % e)
+                    return
+                for ret, finals in out:
+                    n += 1
+                    if ret != TOP and ret[0] == 'panic':
+                        r.bad('schedule|panic|%s' % shape, u.file, 'update_max_size can panic: %s' % (ret,))
+                        continue
+                    fin = dict(finals).get(1)
+                    post = TOP
+                    if fin is not None and fin != TOP and fin[0] == 'ref' and fin[1] != TOP:
+                        post = dict(fin[1][2]).get('size_update', TOP)
+                    seq = None
+                    if post != TOP and post[0] == 'e':
+                        if post[2] == 'None':
+                            seq = []
+                        elif post[3] and post[3][0] != TOP and post[3][0][0] == 'e' and all(x != TOP and x[0] == 'i' for x in post[3][0][3]):
+                            seq = [x[1] for x in post[3][0][3]]
+                    if seq is None:
+                        r.bad('schedule|unknown-post|%s' % shape, u.file, 'post-state of size_update not determined: %s' % (absint.show(post),))
+                        continue
+                    final_ok = (seq[-1] == val) if seq else (val == T)
+                    m = val if m_pre is None else min(m_pre, val)
+                    min_ok = True if m >= T else (bool(seq) and min(seq) <= m)
+                    order_ok = len(seq) < 2 or seq[0] <= seq[1]
+                    if not (final_ok and min_ok and order_ok):
+                        bad += 1
+                        what = ('the last size signalled is %s, the peer asked for %s' % (seq[-1] if seq else 'nothing (table stays at %d)' % T, val)) if not final_ok else \
+                               ('the smallest size since the last block (%d) is never signalled: %s' % (m, seq) if not min_ok else 'sizes signalled out of order: %s' % seq)
+                        r.bad('schedule|%s|%s' % (shape, 'final' if not final_ok else ('min' if not min_ok else 'order')), u.file,
+                              'update_max_size(new=%d) with pending %s%s, table max %d: %s' % (val, shape, ps or '', T, what))
+    if not bad:
+        r.ok('schedule|all-orderings', u.file, 'update_max_size keeps (final = requested, minimum signalled first) for all %d ordering cases of (new, pending, table max)' % n)
+    r.floor(n, 240, 'ordering cases of update_max_size evaluated')
+
+
+def encoder_table_accounting(r, F):
+    """C10.R8: the encoder's dynamic table evicts like the decoder's (RFC 7541 §4.4) so both sides hold the same entries"""
+    T = 'hpack::table::Table'
+    cv = r.fn(T + '::converge')
+    if cv:
+        found = []
+        for bi, sw in core.all_switches(F, cv).items():
+            cr = core.cmp_regions(sw)
+            if cr is None:
+                continue
+            a, b, regs = cr
+            if strip(a)[0] == 'field' and core.last_field(strip(a)) == (T, 'size') and strip(b)[0] == 'field' and core.last_field(strip(b)) == (T, 'max_size'):
+                found.append((bi, regs))
+        r.check(len(found) == 1, 'enc-table|converge|compares', cv.file, 'converge compares size with max_size (%d site(s))' % len(found))
+        ev = [bi for bi, t in cv.calls_to(T + '::evict')]
+        for bi, regs in found:
+            edges = [(bi, s2) for s2, o in regs.items() if o == frozenset(['gt'])]
+            ok = bool(edges) and bool(ev) and all(cv.dominated_by_edges(x, edges) for x in ev) and all(o in (frozenset(['gt']), frozenset(['lt', 'eq'])) for o in regs.values())
+            r.check(ok, 'enc-table|converge|boundary', cv.loc(bi), 'converge evicts exactly while size > max_size (same boundary as the decoder table)')
+        # loops back to the test after each eviction
+        r.check(bool(cv.back_edges()), 'enc-table|converge|loop', cv.file, 'converge re-tests after every eviction')
+    ev = r.fn(T + '::evict')
+    if ev:
+        pb = [bi for bi, t in ev.calls(lambda t: t['fn'].endswith('VecDeque::pop_back'))]
+        subs = [(bi, ev.expr_of_rvalue(rv)) for bi, si, pl, rv, ln in ev.stmts() if core.write_target(ev, pl) == (T, 'size')]
+        ok = len(pb) == 1 and len(subs) == 1 and strip(subs[0][1])[0] in ('bin', 'field') and core.contains_call(subs[0][1], 'hpack::header::Header::len') and any(x[0] == 'bin' and x[1].startswith('Sub') for x in walk(subs[0][1]))
+        r.check(ok, 'enc-table|evict|paired', ev.file, 'evict: one pop_back paired with size -= header.len() of the popped slot')
+    us = r.fn(T + '::update_size')
+    if us:
+        adds = [ev2 for bi, si, pl, rv, ln in us.stmts() if core.write_target(us, pl) == (T, 'size') for ev2 in [us.expr_of_rvalue(rv)] if any(x[0] == 'bin' and x[1].startswith('Add') for x in walk(ev2))]
+        cvs = us.calls_to(T + '::converge')
+        r.check(len(adds) == 1 and any(x == ('arg', 2) for x in walk(adds[0])) and len(cvs) == 1, 'enc-table|update_size', us.file, 'update_size: size += len, then converge')
+    rs = r.fn(T + '::resize')
+    if rs:
+        ws = [bi for bi, si, pl, rv, ln in rs.stmts() if core.write_target(rs, pl) == (T, 'max_size') and strip(rs.expr_of_rvalue(rv)) == ('arg', 2)]
+        cvs = [bi for bi, t in rs.calls_to(T + '::converge')]
+        clr = [bi for bi, t in rs.calls(lambda t: t['fn'].endswith('VecDeque::clear'))]
+        # every path passes converge or the clear branch
+        reach = rs.reachable([0], cut_blocks=cvs + clr)
+        r.check(bool(ws) and bool(cvs) and not any(x in reach for x in rs.returns()), 'enc-table|resize', rs.file, 'resize stores the new max_size and evicts down to it on every path')
+    # who adds entries: the length added to size is the length of the header inserted
+    for fname in (T + '::index_vacant', T + '::index_occupied'):
+        f = F.fn(fname)
+        if f:
+            for bi, t in f.calls_to(T + '::update_size'):
+                e = f.expr_of_op(t['a'][1])
+                r.check(core.contains_call(e, 'hpack::header::Header::len'), 'enc-table|insert-len|%s' % fname.split('::')[-1], f.loc(bi), 'update_size(%s)' % core.show(e)[:60])
